@@ -1,4 +1,257 @@
+//! C20 — every list query of every contract paginates completely.
+//! An exhaustive sweep of the pager state machine (listing × store size × limit × cursor) over the
+//! real `query` entry points; see `pager.rs` (oracle) and `listings.rs` (stores).
+mod listings;
+mod pager;
+
+use listings::{find_listing, listings, Key, Listing};
+use mc::report::load_replay;
+use mc::{Known, Report, RunStats};
+use pager::{check_page, check_walk, limit_json, positions, sweep, Info, LIMITS};
+use rayon::prelude::*;
+use serde_json::{json, Value};
+use std::collections::BTreeMap;
+
+const QUICK_SIZES: [usize; 14] = [0, 1, 2, 9, 10, 11, 29, 30, 31, 35, 59, 60, 61, 64];
+
+fn sizes(thorough: bool) -> Vec<usize> {
+    if thorough {
+        // every size up to past two full maximum pages, and the third / fourth page boundary
+        let mut v: Vec<usize> = (0..=66).collect();
+        v.extend([89, 90, 91, 100, 121]);
+        v
+    } else {
+        QUICK_SIZES.to_vec()
+    }
+}
+
+fn run(prop: &str, tier: &str) -> i32 {
+    if prop != "C20" {
+        eprintln!("fam-paging does not serve {prop}");
+        return 2;
+    }
+    let thorough = tier == "thorough";
+    let known = Known::load(prop);
+    let mut rep = Report::new(prop, tier, "paging");
+    let ls = listings();
+    let ns = sizes(thorough);
+    let mut skipped: Vec<String> = vec![];
+    let mut jobs: Vec<(&Listing, usize)> = vec![];
+    for l in &ls {
+        for &n in &ns {
+            if n < l.min_n {
+                skipped.push(format!("{}/n={} (the contract refuses to be instantiated with no voters)", l.name, n));
+            } else {
+                jobs.push((l, n));
+            }
+        }
+    }
+    // largest stores first: better load balance
+    jobs.sort_by_key(|(_, n)| std::cmp::Reverse(*n));
+    let results: Vec<Result<(RunStats, Info), String>> = jobs.par_iter().map(|(l, n)| sweep(l, *n, &known)).collect();
+    let mut runs = vec![];
+    let mut infos = vec![];
+    for r in results {
+        match r {
+            Ok((st, info)) => {
+                runs.push(st);
+                infos.push(info);
+            }
+            Err(e) => {
+                eprintln!("machinery error: {e}");
+                return 2;
+            }
+        }
+    }
+    // stable order in the evidence: by listing (declaration order), then n
+    let order: BTreeMap<&str, usize> = ls.iter().enumerate().map(|(i, l)| (l.name, i)).collect();
+    let mut idx: Vec<usize> = (0..runs.len()).collect();
+    idx.sort_by_key(|&i| (order[infos[i].listing.as_str()], infos[i].n));
+    let mut runs: Vec<RunStats> = idx.iter().map(|&i| runs[i].clone()).collect();
+    let infos: Vec<Info> = idx.iter().map(|&i| infos[i].clone()).collect();
+    // a broken listing fails at most sizes: report each (listing, clause) once, at the smallest size
+    // (runs are ordered by size within a listing)
+    let mut reported: std::collections::BTreeSet<(String, String)> = Default::default();
+    let mut suppressed = 0u64;
+    for (r, i) in runs.iter_mut().zip(&infos) {
+        r.found.retain(|f| {
+            let keep = f.known.is_some() || reported.insert((i.listing.clone(), f.clause.clone()));
+            if !keep {
+                suppressed += 1;
+            }
+            keep
+        });
+    }
+    rep.extra.insert("violations_at_larger_sizes_not_listed".into(), json!(suppressed));
+
+    let mut per_listing: Vec<Value> = vec![];
+    let mut short_total = 0u64;
+    for l in &ls {
+        let mine: Vec<&Info> = infos.iter().filter(|i| i.listing == l.name).collect();
+        let short: u64 = mine.iter().map(|i| i.short_nonfinal_pages).sum();
+        short_total += short;
+        per_listing.push(json!({
+            "listing": l.name,
+            "order": if l.descending { "descending" } else { "ascending" },
+            "filtered": l.filtered,
+            "sizes": mine.iter().map(|i| i.n).collect::<Vec<_>>(),
+            "stored_entries_per_size": mine.iter().map(|i| i.stored).collect::<Vec<_>>(),
+            "current_items_per_size": mine.iter().map(|i| i.current).collect::<Vec<_>>(),
+            "pager_states": mine.iter().map(|i| i.states).sum::<u64>(),
+            "page_fetches": mine.iter().map(|i| i.fetches).sum::<u64>(),
+            "page_entries_compared_with_point_queries": mine.iter().map(|i| i.entries_compared).sum::<u64>(),
+            "point_queries": mine.iter().map(|i| i.point_queries).sum::<u64>(),
+            "entry_point_calls_to_build_stores": mine.iter().map(|i| i.build_calls).sum::<u64>(),
+            "longest_walk_pages": mine.iter().map(|i| i.longest_walk_pages).max().unwrap_or(0),
+            "short_non_final_pages": short,
+        }));
+    }
+    rep.extra.insert("listings".into(), json!(per_listing));
+    rep.extra.insert("sizes".into(), json!(ns));
+    rep.extra.insert("limits".into(), json!(LIMITS.iter().map(|l| limit_json(*l)).collect::<Vec<_>>()));
+    rep.extra.insert("sizes_not_constructible".into(), json!(skipped));
+    rep.extra.insert(
+        "short_non_final_pages".into(),
+        json!({
+            "total": short_total,
+            "note": "pages shorter than min(limit or 10, 30) although more current items follow. For unfiltered listings such a page is a violation; for the filtered listing (cw1-subkeys AllAllowances, which drops expired entries) a short non-empty page would only be reported here, an empty one is a violation (the walk would end early). The real code filters before `take(limit)`, so none occur.",
+        }),
+    );
+    rep.alphabet = "pager states (listing, store of n items, limit, cursor): 21 listing variants (cw20-base AllAccounts / AllAllowances / AllSpenderAllowances; cw1-subkeys AllAllowances with six expiry patterns × query blocks, AllPermissions; cw3-fixed and cw3-flex ListProposals / ReverseProposals / ListVotes / ListVoters; cw4-group and cw4-stake ListMembers; cw20-ics20 ListAllowed); limits {absent, 0, 1, 2, 9, 10, 11, 29, 30, 31, 32, 100, 2^32-1}; cursors: none, every stored key as start_after / start_before (for the filtered listing also the keys of expired entries), and the walk from the beginning with the last returned key as next cursor until an empty page".into();
+    rep.oracle = "expected listing = the constructed key set sorted by key bytes (numerically for proposal ids, descending for ReverseProposals), each key confirmed by the contract's point query (Balance, Allowance, Permissions, Proposal, Vote, Voter, Member, Allowed); every page must be the run of the next min(limit or 10, 30) expected entries after the cursor (fewer only at the end), each entry equal to the point query's answer; no page exceeds the requested limit, 30, or 10 without a limit; the page without a limit equals the page with limit 10; limit 0 gives an empty page; for every limit >= 1 the walk until an empty page returns every current item exactly once in order and terminates".into();
+    rep.bounds = format!(
+        "complete enumeration of sizes {:?} × 13 limits × (n+1) cursors + 13 walks per (listing, size); stores contain noise entries in neighbouring prefixes/namespaces",
+        ns
+    );
+    rep.assumptions = vec![
+        "stores are built through the real instantiate/execute entry points; keys are MockApi bech32 addresses (order = byte order of the address strings) or proposal ids".into(),
+        "store sizes are bounded by 64 (quick) / 121 (thorough); limits above 2^32-1 cannot be expressed (u32)".into(),
+        "cursors are keys of the store (what a previous page can return); arbitrary strings as cursors are not explored".into(),
+        "cw3-flex ListVoters / Voter are answered by a real cw4-group through the kernel's smart and raw queries".into(),
+        "cw3-fixed ListVoters with 0 voters is not constructible (instantiate refuses); cw20-ics20 ListChannels has no paging and is not covered".into(),
+    ];
+    rep.runs = runs;
+    rep.finish()
+}
+
+fn parse_case(v: &Value) -> Result<(Listing, usize, String, Option<u32>, Option<Key>), String> {
+    let name = v["listing"].as_str().ok_or("case without listing")?;
+    let l = find_listing(name).ok_or_else(|| format!("unknown listing {name}"))?;
+    let n = v["n"].as_u64().ok_or("case without n")? as usize;
+    let mode = v["mode"].as_str().unwrap_or("page").to_string();
+    let limit = match &v["limit"] {
+        Value::Null => None,
+        x => Some(x.as_u64().ok_or("bad limit")? as u32),
+    };
+    let cursor = match &v["cursor"] {
+        Value::Null => None,
+        x => Some(Key::from_json(x).ok_or("bad cursor")?),
+    };
+    Ok((l, n, mode, limit, cursor))
+}
+
+/// re-run one recorded case on a freshly built store; returns (printed lines, violated clauses)
+fn replay_once(case: &Value) -> Result<(Vec<String>, Vec<(String, String)>), String> {
+    let (l, n, mode, limit, cursor) = parse_case(case)?;
+    let b = l.build(n)?;
+    let mut lines = vec![format!(
+        "store: {} with {} stored entries, {} current items (built with {} entry-point calls, {} point queries)",
+        l.name,
+        b.stored.len(),
+        b.expected.len(),
+        b.build_calls,
+        b.point_queries
+    )];
+    let mut viols = vec![];
+    if mode == "walk" {
+        let w = check_walk(&l, &b, n, limit);
+        for (i, p) in w.pages.iter().enumerate() {
+            lines.push(format!(
+                "walk page {i}: cursor={} -> {} entries, keys at positions {:?}",
+                w.cursors[i].as_ref().map(|k| k.json().to_string()).unwrap_or_else(|| "none".into()),
+                p.len(),
+                positions(&l, &b, p)
+            ));
+        }
+        lines.push(format!("expected: every one of the {} current items exactly once, in key order", b.expected.len()));
+        for v in w.viols {
+            viols.push((v.clause, v.detail));
+        }
+    } else {
+        let out = check_page(&l, &b, n, limit, cursor.as_ref());
+        lines.push(format!("query: {}", pager::page_msg(&l, &b, cursor.as_ref(), limit)));
+        match &out.page {
+            Ok(p) => {
+                lines.push(format!("page obtained ({} entries): {}", p.len(), Value::Array(p.clone())));
+            }
+            Err(e) => lines.push(format!("page obtained: query failed: {e}")),
+        }
+        lines.push(format!("page expected ({} entries): {}", out.expected.len(), Value::Array(out.expected.clone())));
+        for v in out.viols {
+            viols.push((v.clause, v.detail));
+        }
+        if limit.is_none() {
+            let a = pager::fetch(&l, &b, cursor.as_ref(), None);
+            let t = pager::fetch(&l, &b, cursor.as_ref(), Some(10));
+            if let (Ok(a), Ok(t)) = (a, t) {
+                if a != t {
+                    viols.push((
+                        "C20.default_page_size".to_string(),
+                        format!("the page without a limit ({} entries) differs from the page with limit 10 ({} entries)", a.len(), t.len()),
+                    ));
+                }
+            }
+        }
+    }
+    Ok((lines, viols))
+}
+
+fn replay(path: &str) -> i32 {
+    let rf = load_replay(path);
+    if rf.model != "paging" || rf.actions.len() != 1 {
+        eprintln!("machinery error: {path} is not a paging replay file");
+        return 2;
+    }
+    let a = replay_once(&rf.actions[0]);
+    let b = replay_once(&rf.actions[0]);
+    let (a, b) = match (a, b) {
+        (Ok(a), Ok(b)) => (a, b),
+        (Err(e), _) | (_, Err(e)) => {
+            eprintln!("machinery error: {e}");
+            return 2;
+        }
+    };
+    if a != b {
+        eprintln!("machinery error: replay is not deterministic");
+        return 2;
+    }
+    println!("case: {}", rf.actions[0]);
+    for l in &a.0 {
+        println!("{l}");
+    }
+    let mut hit = false;
+    for (c, d) in &a.1 {
+        println!("    VIOLATED clause={c} {d}");
+        if *c == rf.clause {
+            hit = true;
+        }
+    }
+    if hit {
+        println!("VIOLATION property={} replay=(replayed) clause={}", rf.property, rf.clause);
+        1
+    } else {
+        println!("replay: clause {} did not fail", rf.clause);
+        0
+    }
+}
+
 fn main() {
-    eprintln!("fam-paging: not built yet");
-    std::process::exit(2);
+    mc::world::silence_panics();
+    let a = mc::parse_args();
+    let code = if a.cmd == "replay" {
+        replay(a.path.as_deref().unwrap_or(""))
+    } else {
+        run(&a.cmd, &a.tier)
+    };
+    std::process::exit(code);
 }
